@@ -1,7 +1,7 @@
 (* Props/C06.v — audited surface for property C06 (error / failure policy state machine). *)
 From Coq Require Import ZArith List Bool PrimFloat String.
 Import ListNotations.
-Require Import PyBase Solver SolverFacts SolverFacts2 SolverFacts3 SolverFacts4 SolverFacts5 SolverF SolverExamples SolverExamples2.
+Require Import PyBase Solver SolverFacts SolverFacts2 SolverFacts3 SolverFacts4 SolverFacts5 SolverFacts6 SolverF SolverExamples SolverExamples2.
 Require Import SolveAll SolveAllF SolveAllFacts SolveAllExamples.
 Require Fsic.Gen.Generated.
 Open Scope Z_scope.
@@ -265,6 +265,55 @@ Section C06.
     then replace_nonfinite num isfin zero (chkseq d o t p c0 v1 (S j)) else chkseq d o t p c0 v1 (S j).
   Proof. exact (lcur_0_S num isfin zero ev d o t p c0 v1 j). Qed.
 
+  (* EVERY `errors` value: True is returned only for a pass k that was judged — it started from a finite LOCAL vector, ended
+     with a finite stored vector, k >= min_iter, every check variable moved by < tol against the local vector, and no earlier
+     pass stopped the loop.  (The local vector is the stored one except after a zeroing under 'replace': C06_lcur_step.) *)
+  Theorem C06_solved_only_if_locally_judged d o t s p v1 s' :
+    min_iter o <= max_iter o ->
+    py_pos (List.length (status s)) t = Some p -> feasible d (List.length (status s)) p = true -> offset o = 0 ->
+    is_raise (errors o) && negb (all_finite (get_check d (vals_of s) p)) = false ->
+    before t (errors o) (catch_first o) 0%nat (vals_of s) = (v1, None) ->
+    List.length (iters s) = List.length (status s) ->
+    solve_t_M d o t s = (s', Ret true) ->
+    let c0 := get_check d (vals_of s) p in
+    exists k, (1 <= k <= Z.to_nat (max_iter o))%nat /\
+      nth_error (status s') p = Some Solved /\ nth_error (iters s') p = Some (Z.of_nat k) /\
+      all_finite (lcur num isfin zero ev d o t p c0 v1 (k - 1)) = true /\ all_finite (chkseq d o t p c0 v1 k) = true /\
+      min_iter o <= Z.of_nat k /\
+      conv num sub absf ltb (tol o) (chkseq d o t p c0 v1 k) (lcur num isfin zero ev d o t p c0 v1 (k - 1)) = true /\
+      (forall j, (1 <= j < k)%nat -> stops num sub absf ltb isfin zero ev d o t p c0 v1 (Z.to_nat (max_iter o)) j = false).
+  Proof. intros H1 H2 H3 H4 H5 H6. exact (solved_only_if_locally_judged num sub absf ltb isfin zero ev before after d o t s p v1 H1 H2 H3 H4 H5 H6 s'). Qed.
+
+  (* the clause "a pass that starts from non-finite check values is never judged" for errors='replace', under the explicit guard
+     that excludes finding #5: no earlier pass of this period turned a finite local vector into a non-finite stored one (nothing
+     was zeroed).  Without the guard the clause is refuted (C06_replace_judged_after_nonfinite_refuted), and the guard is
+     exactly what fails there (C06_replace_judged_after_nonfinite_only_by_zeroing). *)
+  Theorem C06_nonfinite_start_never_judged_replace_guarded d o t s p v1 s' k :
+    min_iter o <= max_iter o ->
+    py_pos (List.length (status s)) t = Some p -> feasible d (List.length (status s)) p = true -> offset o = 0 ->
+    is_raise (errors o) && negb (all_finite (get_check d (vals_of s) p)) = false ->
+    before t (errors o) (catch_first o) 0%nat (vals_of s) = (v1, None) ->
+    errors o = EReplace -> List.length (iters s) = List.length (status s) ->
+    let c0 := get_check d (vals_of s) p in
+    (forall j, (S j < k)%nat -> all_finite (lcur num isfin zero ev d o t p c0 v1 j) = true ->
+               all_finite (chkseq d o t p c0 v1 (S j)) = true) ->
+    all_finite (chkseq d o t p c0 v1 (k - 1)) = false ->
+    solve_t_M d o t s = (s', Ret true) ->
+    nth_error (iters s') p <> Some (Z.of_nat k).
+  Proof. intros H1 H2 H3 H4 H5 H6. exact (nonfinite_start_never_judged_replace_guarded num sub absf ltb isfin zero ev before after d o t s p v1 H1 H2 H3 H4 H5 H6 s' k). Qed.
+  Theorem C06_replace_judged_after_nonfinite_only_by_zeroing d o t s p v1 s' k :
+    min_iter o <= max_iter o ->
+    py_pos (List.length (status s)) t = Some p -> feasible d (List.length (status s)) p = true -> offset o = 0 ->
+    is_raise (errors o) && negb (all_finite (get_check d (vals_of s) p)) = false ->
+    before t (errors o) (catch_first o) 0%nat (vals_of s) = (v1, None) ->
+    errors o = EReplace -> List.length (iters s) = List.length (status s) ->
+    let c0 := get_check d (vals_of s) p in
+    all_finite (chkseq d o t p c0 v1 (k - 1)) = false ->
+    solve_t_M d o t s = (s', Ret true) -> nth_error (iters s') p = Some (Z.of_nat k) ->
+    ~ (forall j, (S j < k)%nat -> all_finite (lcur num isfin zero ev d o t p c0 v1 j) = true ->
+                 all_finite (chkseq d o t p c0 v1 (S j)) = true).
+  Proof. intros H1 H2 H3 H4 H5 H6. exact (replace_judged_after_nonfinite_only_by_zeroing num sub absf ltb isfin zero ev before after d o t s p v1 H1 H2 H3 H4 H5 H6 s' k). Qed.
+
   (* solve_t consults its oracles only at this call's period argument, `errors` and `catch_first_error` (the warnings filter
      is selected from exactly these two options and nothing else) *)
   Theorem C06_solve_t_hooks_ext (ev' before' after' : hook num) d o t s :
@@ -406,6 +455,9 @@ Print Assumptions C06_complete_state_machine.
 Print Assumptions C06_stops_unfold.
 Print Assumptions C06_result_at_unfold.
 Print Assumptions C06_lcur_step.
+Print Assumptions C06_solved_only_if_locally_judged.
+Print Assumptions C06_nonfinite_start_never_judged_replace_guarded.
+Print Assumptions C06_replace_judged_after_nonfinite_only_by_zeroing.
 Print Assumptions C06_solve_t_hooks_ext.
 Print Assumptions C06_warnings_dropped_unless_raise_and_catch_first.
 Print Assumptions C06_before_hook_warning_caught.
@@ -424,3 +476,4 @@ Print Assumptions ex8_never_judged_hypotheses_satisfiable.
 Print Assumptions ex10_state_machine_instances.
 Print Assumptions ex11_warning_filter.
 Print Assumptions ex12_before_hook_warning.
+Print Assumptions ex13_replace_guard_satisfiable.
